@@ -869,13 +869,20 @@ def run_layout_pair(res, ast, rule):
         bc_ = ast.fn(BCMOD, "build_context")["node"]
         fc = ast.fn(BCMOD, "free_context")["node"]
 
+        import pm
+
         def layout(fn):
+            """the arguments of Layout::from_size_align with side-effect-free locals written out"""
+            lets = {l["pat"]["name"]: l["init"] for l in walk_t(fn["body"], "Local") if l["pat"]["t"] == "PIdent" and not l["pat"]["mut"] and l.get("init") is not None and pm._loadish(l["init"])}
             for c in walk_t(fn["body"], "Call"):
                 if path_name(c["func"]) == "Layout::from_size_align":
-                    return " ".join(" ".join(ast.src(BCMOD, a_).split()) for a_ in c["args"])
+                    return [pm._subst(a_, {k_: {"t": "Paren", "sp": v_["sp"], "expr": v_} for k_, v_ in lets.items()}) for a_ in c["args"]]
             return None
-        la, lb = layout(bc_), layout(fc)
-        res.check(la is not None and la == lb and ".max(2)" in la.replace(" ", ""), rule, f"{BCMOD}|context-layout",
+        la_, lb_ = layout(bc_), layout(fc)
+        same = la_ is not None and lb_ is not None and len(la_) == len(lb_) and all(pm._eq(x_, y_) for x_, y_ in zip(la_, lb_))
+        room = la_ is not None and any(m_["method"] == "max" and len(m_["args"]) == 1 and (int_lit(m_["args"][0]) or 0) >= 2 for m_ in walk_t(la_, "MethodCall"))
+        la = lb = "same" if same and room else None
+        res.check(same and room, rule, f"{BCMOD}|context-layout",
                   where(BCMOD, bc_, "build_context/free_context"),
                   "build_context and free_context must use the identical layout expression with room for the two spill slots (temps.max(2))")
     except Missing as m:
